@@ -2487,6 +2487,11 @@ impl SctpInner {
                 .iter()
                 .find_map(|w| w.upgrade().filter(|d| d.id == channel_id))
             {
+                // Closing a channel that is already closed is a no-op (it used to
+                // announce Close a second time).
+                if dc.state.load(Ordering::SeqCst) == DataChannelState::Closed as usize {
+                    return Ok(());
+                }
                 dc.state
                     .store(DataChannelState::Closing as usize, Ordering::SeqCst);
             }
@@ -2508,9 +2513,13 @@ impl SctpInner {
                 .iter()
                 .find_map(|w| w.upgrade().filter(|d| d.id == channel_id))
             {
-                dc.state
-                    .store(DataChannelState::Closed as usize, Ordering::SeqCst);
-                dc.send_event(DataChannelEvent::Close);
+                // Close is announced at most once (same test as SctpCleanupGuard).
+                let old_state = dc
+                    .state
+                    .swap(DataChannelState::Closed as usize, Ordering::SeqCst);
+                if old_state != DataChannelState::Closed as usize {
+                    dc.send_event(DataChannelEvent::Close);
+                }
             }
         }
 
